@@ -38,6 +38,10 @@ def canon(x, _depth=0, _seen=None):
                              key=repr)))
     if isinstance(x, dict):
         _seen[id(x)] = len(_seen)
+        if all(type(k) is str for k in x):
+            # common case (vars()): order by the attribute name itself
+            return ('dict', tuple(
+                (k, canon(x[k], _depth + 1, _seen)) for k in sorted(x)))
         return ('dict', tuple(sorted(
             ((canon(k, _depth + 1, _seen), canon(v, _depth + 1, _seen))
              for k, v in x.items()), key=repr)))
@@ -54,6 +58,11 @@ def canon(x, _depth=0, _seen=None):
         return ('callable', getattr(x, '__qualname__', repr(type(x))))
     if isinstance(x, float):
         return ('float', repr(x))
+    ck = getattr(x, '_canon_key', None)
+    if ck is not None and callable(ck):
+        # harness-owned objects state which of their fields can influence
+        # future behaviour (logs and counters of past events cannot)
+        return ('harness', type(x).__name__, canon(ck(), _depth + 1, _seen))
     tn = type(x).__name__
     if tn in ('lock', 'RLock') and type(x).__module__ == '_thread':
         # an idle lock carries no state; a held one is recorded as such
@@ -93,7 +102,7 @@ def _expand_chunk(hists):
     out = []
     viols = []
     ntrans = 0
-    local = set()
+    local = {}
     samples = []
     for hist in hists:
         base = S.build(hist)
@@ -107,10 +116,11 @@ def _expand_chunk(hists):
             if len(samples) < 2 and len(hist) >= 2 and ntrans % 101 == 1:
                 samples.append(list(hist) + [op])
             d = digest_of(S.key(sysm))
-            if d in local:
-                continue
-            local.add(d)
             ok = S.expand is None or bool(S.expand(sysm, hist, op))
+            prev = local.get(d)
+            if prev is not None and (prev or not ok):
+                continue        # already reported (as expandable if it is)
+            local[d] = ok
             out.append((hist + (op,), d, ok))
     return out, viols, ntrans, samples
 
